@@ -33,11 +33,17 @@ func init() {
 type RecSender struct {
 	mu  sync.Mutex
 	TGs [][]byte
+	// Keep: retain the slice exactly as it was handed over, as replication.Sender does (it queues the
+	// []byte on a channel and the gRPC stream goroutines read it later); false: copy at Send time.
+	Keep bool
 }
 
 func (s *RecSender) Run(_ context.Context) {}
 func (s *RecSender) Send(tg []byte) {
-	c := append([]byte{}, tg...)
+	c := tg
+	if !s.Keep {
+		c = append([]byte{}, tg...)
+	}
 	s.mu.Lock()
 	s.TGs = append(s.TGs, c)
 	s.mu.Unlock()
